@@ -17,7 +17,7 @@ RULE = ("non-degenerate circuits of strictly positive R, C, L over several decad
         "distinct by (circuit signature, order class).")
 ASSUMPTIONS = [
     "W is built from the component values in the state order the model publishes (capacitor dictionary order, then inductor dictionary order)",
-    "slack 1e-9*||W A|| for the definiteness test, 1e-9 of the peak energy for monotonicity (lsim is exact for zero input)",
+    "slack max(1e-9, 256 kappa 2^-53)*||W A|| for the definiteness test with kappa = condition number of the DC nodal matrix the builder inverts (set aside above 1e8), 1e-9 of the peak energy for monotonicity (lsim is exact for zero input)",
 ]
 N_MODEL = {'quick': 3000, 'thorough': 25000}
 N_SIM = {'quick': 600, 'thorough': 5000}
@@ -90,9 +90,15 @@ def check_matrix(ctx, prefix, cd, A, cv, lv, ssm=None):
     S = WA + WA.T
     nrm = max(float(np.linalg.norm(WA, 2)), 1e-300)
     lam = float(np.max(np.linalg.eigvalsh(S))) if S.size else 0.0
+    # the rounding error of A scales with the condition number of the DC nodal matrix the builder inverts (micro-ohm next to ohm)
+    k_build = dynamics.construction_kappa(cd)
+    if not k_build <= 1e8:
+        ctx.count('set_aside_construction_ill_conditioned')
+        return
+    slack = max(1e-9, 256 * k_build * 2.0 ** -53)
     ctx.maxstat('max_eig_sym_WA_over_norm', lam / nrm)
     ctx.count('matrices_checked'); ctx.count('matrices_' + okey)
-    if lam > 1e-9 * nrm:
+    if lam > slack * nrm:
         ctx.violation(f'{prefix}/not-passive/{okey}', f'largest eigenvalue of W A + A^T W is {lam!r} (||W A|| = {nrm!r})', {'order_class': oc, 'A': A.tolist(), 'W': w.tolist()})
     ev = np.linalg.eigvals(A) if A.size else np.array([0.0])
     ab = float(np.max(ev.real))
